@@ -577,6 +577,59 @@ func TestVerifH5(t *testing.T) {
 		w.other.Close()
 		synctest.Wait()
 	})
+	// read deadlines (net.PacketConn): once the deadline has passed EVERY ReadFrom fails with a timeout until the
+	// deadline is moved - not only the call that was blocked when it expired
+	synctest.Test(t, func(t *testing.T) {
+		w := newH5World(vt)
+		vt.Op("cnew")
+		vt.Obs("ok")
+		readOnce := func() (string, bool) {
+			res := make(chan string, 1)
+			go func() {
+				buf := make([]byte, 2048)
+				_, _, err := w.conn.ReadFrom(buf)
+				switch {
+				case err == nil:
+					res <- "data"
+				case strings.Contains(err.Error(), "timeout"):
+					res <- "timeout"
+				default:
+					res <- "err " + err.Error()
+				}
+			}()
+			synctest.Wait()
+			select {
+			case r := <-res:
+				return r, true
+			default:
+				return "", false
+			}
+		}
+		_ = w.conn.SetReadDeadline(time.Now().Add(time.Second))
+		time.Sleep(1500 * time.Millisecond)
+		for i := 1; i <= 3; i++ {
+			r, done := readOnce()
+			if !done {
+				vt.Alarm("read-deadline-not-sticky", "ReadFrom #%d after the read deadline expired blocks instead of timing out", i)
+				_ = w.conn.SetReadDeadline(time.Now()) // release the reader
+				synctest.Wait()
+				break
+			}
+			if r != "timeout" {
+				vt.Alarm("read-deadline-not-sticky", "ReadFrom #%d after the read deadline expired returned %q", i, r)
+			}
+		}
+		// a deadline set in the past fails at once, a cleared one lets queued data through
+		_ = w.conn.SetReadDeadline(time.Now().Add(-time.Second))
+		if r, done := readOnce(); !done || r != "timeout" {
+			vt.Alarm("read-deadline-not-sticky", "ReadFrom with a deadline in the past: %q done=%v", r, done)
+			_ = w.conn.SetReadDeadline(time.Now())
+			synctest.Wait()
+		}
+		_ = w.conn.SetReadDeadline(time.Time{})
+		vt.Stat("deadline.scenarios")
+		w.finish()
+	})
 	// the client's read loop over a stream transport (proto.STUNConn): frames of every extreme size from the server,
 	// each followed by a liveness probe (a Binding transaction must still complete)
 	synctest.Test(t, func(t *testing.T) {
